@@ -1,5 +1,6 @@
 //! btdht-sim: deterministic simulation with fault injection for equalitie/btdht.
 
+mod alloc;
 mod entropy;
 mod exec;
 mod krpc;
@@ -12,6 +13,9 @@ mod sup;
 mod tablemon;
 
 use props::Tier;
+
+#[global_allocator]
+static GLOBAL: alloc::Counting = alloc::Counting;
 
 fn tier_of(s: &str) -> Tier {
     if s == "thorough" {
